@@ -386,17 +386,132 @@ func (a *A) inputGate() {
 	}
 
 	// the comparison
-	cmpIfs := ifsOn(ps, func(v ssa.Value) bool {
+	isCmp := func(v ssa.Value) bool {
 		b, ok := v.(*ssa.BinOp)
 		return ok && (b.Op == token.EQL || b.Op == token.NEQ) && (reachesCall(b.X, comp) || reachesCall(b.Y, comp))
-	})
-	var cmp *condIf
-	var cmpBin *ssa.BinOp
+	}
+	cmpIfs := ifsOn(ps, isCmp)
+	var cmp *condIf       // the branch of parsePSISection only a matching CRC passes
+	var cmpBin *ssa.BinOp // the comparison itself, in cf
+	var eq edge           // the edge of cmp taken on a match
+	var gateBlock *ssa.BasicBlock
+	cf, cit, cmoving := ps, ssa.Value(it), moving
+	up := func(v ssa.Value) ssa.Value { return v } // a value of cf seen from parsePSISection
+	eqEdge := func() edge { return eq }
 	if len(cmpIfs) == 1 {
 		cmp = &cmpIfs[0]
 		cmpBin = cmp.V.(*ssa.BinOp)
+		eq = cmp.edge(cmpBin.Op == token.EQL)
+		gateBlock = cmp.If.Block()
+	} else if len(cmpIfs) == 0 {
+		// the comparison moved into a helper: one call of a package function that receives the iterator, holds the only comparison
+		// with computeCRC32 and returns an error; its nil-error edge in parsePSISection then is the gate, provided the helper
+		// returns nil only over the equal edge of its comparison
+		type cand struct {
+			call *ssa.Call
+			g    *ssa.Function
+			ci   condIf
+		}
+		var cands []cand
+		for _, c := range ssau.Calls(ps) {
+			cc, ok := c.(*ssa.Call)
+			if !ok {
+				continue
+			}
+			g := cc.Call.StaticCallee()
+			if g == nil || !inRoot(g) || g.Blocks == nil || g == comp {
+				continue
+			}
+			if gi := ifsOn(g, isCmp); len(gi) == 1 {
+				cands = append(cands, cand{cc, g, gi[0]})
+			} else if len(gi) > 1 {
+				cmpIfs = append(cmpIfs, gi...)
+			}
+		}
+		if len(cands) == 1 && len(cmpIfs) == 0 {
+			cd := cands[0]
+			g := cd.g
+			key := fn + "/gate/helper/" + bare(g)
+			ei := ssau.ErrorResultIndex(g.Signature)
+			j := -1
+			for i, arg := range cd.call.Call.Args {
+				if arg == ssa.Value(it) {
+					j = i
+				}
+			}
+			var errv ssa.Value
+			if ei >= 0 {
+				if g.Signature.Results().Len() == 1 {
+					errv = cd.call
+				} else {
+					errv = extractOf(cd.call, ei)
+				}
+			}
+			var bad []string
+			var eifs []condIf
+			if errv == nil {
+				bad = append(bad, "the helper has no error result, or its error is discarded")
+			} else {
+				eifs = ifsOn(ps, func(v ssa.Value) bool {
+					nc, ok := ssau.AsNilCompare(v)
+					return ok && ssau.SameValue(nc.X, errv)
+				})
+				if len(eifs) != 1 {
+					bad = append(bad, fmt.Sprintf("%d branches test the helper's error against nil (expected 1)", len(eifs)))
+				}
+			}
+			if j < 0 || j >= len(g.Params) {
+				bad = append(bad, "the helper does not receive the section's iterator")
+			}
+			gb := cd.ci.V.(*ssa.BinOp)
+			geq := cd.ci.edge(gb.Op == token.EQL)
+			nsucc := 0
+			open := reach([]*ssa.BasicBlock{g.Blocks[0]}, []edge{geq}, nil)
+			for _, rt := range ssau.Returns(g) {
+				if !successReturn(rt) {
+					continue
+				}
+				nsucc++
+				if open[rt.Block()] {
+					bad = append(bad, "the error-free return at "+a.ipos(rt)+" is reachable without taking the `computed CRC == stream CRC` edge of the comparison at "+a.ipos(cd.ci.If))
+				}
+			}
+			if nsucc == 0 {
+				bad = append(bad, "the helper has no error-free return")
+			}
+			if len(bad) == 0 {
+				gops, gstray := iterOps(g, g.Params[j])
+				if len(gstray) > 0 {
+					bad = append(bad, "the iterator is used other than as a call argument in the helper ("+gstray[0].String()+")")
+				} else {
+					cmoving = movingOps(gops)
+				}
+			}
+			r.Check(len(bad) == 0, rule, key, a.ipos(cd.call),
+				fmt.Sprintf("the CRC comparison lives in %s: it receives the section's iterator, its %d error-free return(s) are only reachable over the equal edge of its single comparison with computeCRC32, and parsePSISection tests its error once", bare(g), nsucc),
+				joinNonEmpty(bad))
+			if len(bad) == 0 {
+				nc, _ := ssau.AsNilCompare(eifs[0].V)
+				cmp = &eifs[0]
+				cmpBin = gb
+				eq = cmp.edge(!nc.Ne)
+				gateBlock = cd.call.Block()
+				cf, cit = g, ssa.Value(g.Params[j])
+				call := cd.call
+				up = func(v ssa.Value) ssa.Value {
+					if p, ok := v.(*ssa.Parameter); ok && p.Parent() == g {
+						for i, q := range g.Params {
+							if q == p && i < len(call.Call.Args) {
+								return strip(call.Call.Args[i])
+							}
+						}
+					}
+					return v
+				}
+			}
+		}
 	}
-	eqEdge := func() edge { return cmp.edge(cmpBin.Op == token.EQL) }
+	_ = cf
 
 	// ---- gate: per success return ------------------------------------------------------------
 	nSuccess := 0
@@ -467,7 +582,7 @@ func (a *A) inputGate() {
 		return
 	}
 	if hasIf != nil {
-		r.Check(dominatedByEdge(cmp.If.Block(), *hasIf, true), rule, fn+"/gate/comparison", a.ipos(cmp.If),
+		r.Check(dominatedByEdge(gateBlock, *hasIf, true), rule, fn+"/gate/comparison", a.ipos(cmp.If),
 			"the CRC comparison is evaluated only on the hasCRC32()=true edge", "the CRC comparison is not dominated by the hasCRC32()=true edge")
 	}
 
@@ -496,7 +611,7 @@ func (a *A) inputGate() {
 	ia, ie := -1, -1 // result indexes of the header parser used as slice start / sections end
 	if compCall != nil {
 		fc, fidx := tupleSource(soleLeafOrSelf(compCall.Call.Args[0]))
-		n, isF := isFetch(fc, it)
+		n, isF := isFetch(fc, cit)
 		if !isF || fidx != 0 {
 			r.Bad(rule, fn+"/crc-slice-bounds/fetch", a.ipos(compCall), "the argument of computeCRC32 is not the byte slice returned by one NextBytesNoCopy/NextBytes on the section's iterator")
 		} else {
@@ -507,10 +622,10 @@ func (a *A) inputGate() {
 				"computeCRC32 is not dominated by the nil-error edge of the fetch of its argument: a failed fetch yields an empty slice")
 			// start
 			var startArg ssa.Value
-			args, bad := seekBefore(fc, it, moving)
+			args, bad := seekBefore(fc, cit, cmoving)
 			if bad == "" && len(args) == 1 {
 				startArg = strip(args[0])
-				c, idx := tupleSource(startArg)
+				c, idx := tupleSource(up(startArg))
 				if hc == nil || c != hc {
 					bad = "the Seek argument is not a result of the parsePSISectionHeader call (it is " + startArg.String() + ")"
 				} else {
@@ -528,7 +643,7 @@ func (a *A) inputGate() {
 			if !isSub || sub.Op != token.SUB {
 				bad = "the fetched length is not a difference of two offsets (it is " + strip(n).String() + ")"
 			} else {
-				ce, idxE := tupleSource(strip(sub.X))
+				ce, idxE := tupleSource(up(strip(sub.X)))
 				if hc == nil || ce != hc {
 					bad = "the minuend of the length is not a result of the parsePSISectionHeader call (it is " + strip(sub.X).String() + ")"
 				} else if startArg == nil || strip(sub.Y) != startArg {
@@ -548,6 +663,11 @@ func (a *A) inputGate() {
 	{
 		key := fn + "/stream-operand-from-4-fetched-bytes"
 		v := soleLeaf(streamSide)
+		if v != nil {
+			if u := up(v); u != v {
+				v = soleLeaf(u)
+			}
+		}
 		bad := ""
 		if v == nil {
 			bad = "the stream operand has several possible definitions"
@@ -613,7 +733,7 @@ func (a *A) inputGate() {
 			})
 			ok := false
 			for _, q := range ifs {
-				if dominatedByEdge(cmp.If.Block(), q, !sp.Val) && (streamMove == nil || dominatedByEdge(streamMove.Block(), q, !sp.Val)) {
+				if dominatedByEdge(gateBlock, q, !sp.Val) && (streamMove == nil || dominatedByEdge(streamMove.Block(), q, !sp.Val)) {
 					ok = true
 				}
 			}
